@@ -140,8 +140,10 @@ def run(ctx):
                         "nodes that carry a range only under all-nodes-with-ranges (arguments, comprehension, withitem, match_case, module) are checked structurally"]
     for name in SUBLANGS:
         cases = sr.generate(ctx, name)
-        if ctx.quick and len(cases) > 8000:
-            cases = cases[::(len(cases) + 7999) // 8000]
+        cap = 8000 if ctx.quick else 60000
+        if len(cases) > cap:
+            cases = cases[::(len(cases) + cap - 1) // cap]
+            ctx.extra["exhaustive"] = False
         ctx.sample({"sublanguage": name, "text": pygen.realize(cases[len(cases) // 2], *LAYOUTS["multibyte"])[0]})
         check_cases(ctx, cases, name)
     corpus_structure(ctx)
